@@ -129,8 +129,14 @@ def law_qr(ch):
                 "qr:r-not-triangular", f"R block {s_}")
         if stab:
             d = np.diagonal(b)
-            require(np.all(np.abs(np.imag(d)) <= TOL * (np.abs(b).max() + 1))
-                    and np.all(np.real(d) >= -TOL * (np.abs(b).max() + 1)),
+            t = TOL * (np.abs(b).max() + 1)
+            pos = np.all(np.real(d) >= -t)
+            if spec["ferm"]:
+                # the fermionic wrapper puts a sign on the odd sectors of a
+                # dual inner bond (kept pending or multiplied in): the
+                # diagonal is non-negative up to one sign per block
+                pos = pos or np.all(np.real(d) <= t)
+            require(np.all(np.abs(np.imag(d)) <= t) and pos,
                     "qr:stabilised-diagonal",
                     lambda: f"R block {s_} diagonal {d}")
     label(ch, x, spec, mc)
